@@ -16,25 +16,120 @@
 //! (bytes inserted / deleted / overwritten inside one chunk, two separate edits), near-duplicate runs inside one pending xorb; a second session re-uploading and recombining content
 //! of the first; cleaners fed round-robin.  Feed partitions: one call (larger than the ingestion block, not a multiple of it), small
 //! calls, mixed calls.  Prints `WITNESS ...` and exits 1 on the first violation.
+//!
+//! Coverage extension ("extras", run in every child beside the three-store scenario, sized by the child's limits; see `extras`):
+//!   E1 entry points: `data_client::clean_file` on REAL files (0, 1, ingestion block -1 / exact / +1, two blocks (+7) bytes, a copy),
+//!      `PointerFile` text round trip (`to_string` -> `init_from_string`, file -> `init_from_path`), `smudge_file_from_hash`;
+//!   E2 cleaner API: finish without add_data, only empty slices, empty slices interleaved, a cleaner dropped without finish;
+//!   E3 boundary sizes: min chunk -1/0/+1, max chunk -1/0/+1 (random and zeros), 2 max (+1), last chunk of 1 byte, files of exactly
+//!      xorb limit -1/0/+1 bytes resp. chunks - all in one session, and each alone in its own session;
+//!   E4 histories: a session dropped WITHOUT finalize (two finished files, a third cleaner fed up to its first xorb cut) followed by a
+//!      session with the same content that first drops a fed cleaner; prefix / suffix / middle slices of an earlier file cut at and
+//!      off chunk boundaries, first / last byte removed (later session and same session); hit -> new -> hit; fully deduplicated file;
+//!   E5 many tiny files in one session (the session-level aggregate is cut several times), some identical;
+//!   E6 concurrently running cleaner tasks in one session (shared content, fresh content, clean_file, tiny files; progress updater
+//!      given), run twice in the same store;
+//!   E7 non-zero repo salts: 0x11.., 0x11..12, zero and 01 00.. over ONE store - hash == reference with that salt, hashes differ
+//!      between salts (the empty file has the all-zero hash under every salt on HEAD: known, not re-reported);
+//!   E8 two sessions open at the same time on one store; E9 (chunks <= 4 KiB) files with > 128 fragmented dedup ranges (one-chunk
+//!      ranges, two-chunk ranges between new data, all-known hopping), i.e. the fragmentation check at its default settings;
+//!   every extras session ends with `finalize_with_file_info`: each file has a record, its size, segment byte sum and SHA-256
+//!   (own implementation, self-tested) are right; downloads also use edge ranges (start == end, first / last byte, end beyond the
+//!   file: an error or the part inside the file) and alternate smudge_file_from_pointer / smudge_file_from_hash.
+//! Further children: (E) 2 KiB chunks with divisor 4 / multiplier 3, 2-chunk xorbs, 5000-byte ingestion blocks and (F) 1-chunk xorbs -
+//! extras only; (G) 4 KiB chunks, 40-chunk xorbs, fragmentation estimator over 4 ranges, repo salt 0x5a.., global dedup policy Never;
+//! (H) 4 KiB chunks, 100,000-byte xorbs, minimum shard size 2048 (several session shards), default 8 MiB ingestion block;
+//! (I) 256-byte chunks, divisor 2 (no skip-ahead) / multiplier 4, 30,000-byte xorbs, 700-byte ingestion blocks; (P) three PROCESSES
+//! over one store: upload + pointer files on disk; a session that cleans files and dies without finalize; a fresh process that
+//! reads the pointer files (`init_from_path`), downloads, uploads related content and downloads everything (minimum shard size 2048,
+//! salt 0x33..); (Q) two processes, cached shards expiring at once (`HF_XET_MDB_SHARD_LOCAL_CACHE_EXPIRATION_SECS=0`).
+//! Debugging aids: `VERIF_C01_TIMING=1` (extra `timing` lines with per-child times and path statistics), `VERIF_C01_ONLY=A,G,..`
+//! (only these children), `VERIF_C01_NO_EXTRAS=1` (three-store scenario only).  Opt-in: `VERIF_C01_TINY_XORB=1` adds child X (xorb byte
+//! limit 6000 < largest chunk 8192: HEAD trips `debug_assert_le!(num_bytes, MAX_XORB_BYTES)` in RawXorbData::from_chunks; with the
+//! assertions removed the data round-trips in oversized one-chunk xorbs - a configuration precondition, not a C01 violation).
+use std::collections::HashMap;
+use std::path::Path;
 use std::process::{Command, Stdio};
 use std::sync::Arc;
 
 use cas_client::{FileProvider, OutputProvider};
 use cas_types::FileRange;
-use data::configurations::TranslatorConfig;
-use data::{FileDownloader, FileUploadSession, PointerFile};
+use data::configurations::{DataConfig, Endpoint, GlobalDedupPolicy, RepoInfo, ShardConfig, TranslatorConfig};
+use data::{CacheConfig, FileDownloader, FileUploadSession, PointerFile};
+use mdb_shard::file_structs::MDBFileInfo;
 use merklehash::{compute_data_hash, compute_internal_node_hash, MerkleHash};
 use rand::rngs::StdRng;
 use rand::{Rng, SeedableRng};
 use xet_threadpool::ThreadPool;
 
-const CONFIGS: [(&str, &[(&str, &str)]); 4] = [
-    ("A: 64 KiB chunks, xorb limit 1,000,000 bytes, ingestion block 3 MiB", &[("HF_XET_MAX_XORB_BYTES", "1000000"), ("HF_XET_INGESTION_BLOCK_SIZE", "3145728")]),
-    ("B: 4 KiB chunks, xorb limit 40 chunks, ingestion block 50,000 bytes", &[("HF_XET_TARGET_CHUNK_SIZE", "4096"), ("HF_XET_MAX_XORB_CHUNKS", "40"), ("HF_XET_INGESTION_BLOCK_SIZE", "50000")]),
-    ("C: 4 KiB chunks, xorb limit 150,000 bytes, ingestion block 1 MiB", &[("HF_XET_TARGET_CHUNK_SIZE", "4096"), ("HF_XET_MAX_XORB_BYTES", "150000"), ("HF_XET_INGESTION_BLOCK_SIZE", "1048576")]),
-    // an ingestion block SMALLER than the largest chunk (64 KiB target -> 128 KiB maximum chunk)
-    ("D: 64 KiB chunks, ingestion block 100,000 bytes (smaller than the largest chunk), xorb limit 2,000,000 bytes", &[("HF_XET_MAX_XORB_BYTES", "2000000"), ("HF_XET_INGESTION_BLOCK_SIZE", "100000")]),
+struct Config {
+    name: &'static str,
+    env: &'static [(&'static str, &'static str)],
+    /// run the three-store scenario (needs xorbs of at least 7 chunks)
+    full: bool,
+    /// every byte of the repo salt
+    salt: u8,
+    never: bool,
+    opt_in: Option<&'static str>,
+    /// processes run one after the other over ONE store directory (see `phased`); empty = the normal single process
+    phases: &'static [u8],
+}
+
+const ENV_NAMES: [&str; 11] = [
+    "HF_XET_MDB_SHARD_LOCAL_CACHE_EXPIRATION_SECS",
+    "HF_XET_MDB_SHARD_EXPIRATION_BUFFER_SECS",
+    "HF_XET_MAX_XORB_BYTES",
+    "HF_XET_MAX_XORB_CHUNKS",
+    "HF_XET_TARGET_CHUNK_SIZE",
+    "HF_XET_INGESTION_BLOCK_SIZE",
+    "HF_XET_MINIMUM_CHUNK_DIVISOR",
+    "HF_XET_MAXIMUM_CHUNK_MULTIPLIER",
+    "HF_XET_MDB_SHARD_MIN_TARGET_SIZE",
+    "HF_XET_NRANGES_IN_STREAMING_FRAGMENTATION_ESTIMATOR",
+    "HF_XET_MIN_N_CHUNKS_PER_RANGE",
 ];
+
+const CONFIGS: [Config; 12] = [
+    Config { name: "A: 64 KiB chunks, xorb limit 1,000,000 bytes, ingestion block 3 MiB", env: &[("HF_XET_MAX_XORB_BYTES", "1000000"), ("HF_XET_INGESTION_BLOCK_SIZE", "3145728")], full: true, salt: 0, never: false, opt_in: None, phases: &[] },
+    Config { name: "B: 4 KiB chunks, xorb limit 40 chunks, ingestion block 50,000 bytes", env: &[("HF_XET_TARGET_CHUNK_SIZE", "4096"), ("HF_XET_MAX_XORB_CHUNKS", "40"), ("HF_XET_INGESTION_BLOCK_SIZE", "50000")], full: true, salt: 0, never: false, opt_in: None, phases: &[] },
+    Config { name: "C: 4 KiB chunks, xorb limit 150,000 bytes, ingestion block 1 MiB", env: &[("HF_XET_TARGET_CHUNK_SIZE", "4096"), ("HF_XET_MAX_XORB_BYTES", "150000"), ("HF_XET_INGESTION_BLOCK_SIZE", "1048576")], full: true, salt: 0, never: false, opt_in: None, phases: &[] },
+    // an ingestion block SMALLER than the largest chunk (64 KiB target -> 128 KiB maximum chunk)
+    Config { name: "D: 64 KiB chunks, ingestion block 100,000 bytes (smaller than the largest chunk), xorb limit 2,000,000 bytes", env: &[("HF_XET_MAX_XORB_BYTES", "2000000"), ("HF_XET_INGESTION_BLOCK_SIZE", "100000")], full: true, salt: 0, never: false, opt_in: None, phases: &[] },
+    Config { name: "E: 2 KiB chunks with minimum = target/4 and maximum = 3 x target, xorb limit 2 chunks, ingestion block 5000 bytes", env: &[("HF_XET_TARGET_CHUNK_SIZE", "2048"), ("HF_XET_MINIMUM_CHUNK_DIVISOR", "4"), ("HF_XET_MAXIMUM_CHUNK_MULTIPLIER", "3"), ("HF_XET_MAX_XORB_CHUNKS", "2"), ("HF_XET_INGESTION_BLOCK_SIZE", "5000")], full: false, salt: 0, never: false, opt_in: None, phases: &[] },
+    Config { name: "F: 4 KiB chunks, xorb limit 1 chunk, ingestion block 20,000 bytes", env: &[("HF_XET_TARGET_CHUNK_SIZE", "4096"), ("HF_XET_MAX_XORB_CHUNKS", "1"), ("HF_XET_INGESTION_BLOCK_SIZE", "20000")], full: false, salt: 0, never: false, opt_in: None, phases: &[] },
+    Config { name: "G: 4 KiB chunks, xorb limit 40 chunks, ingestion block 30,000 bytes, fragmentation estimator over 4 ranges, repo salt 0x5a.., global dedup policy Never", env: &[("HF_XET_TARGET_CHUNK_SIZE", "4096"), ("HF_XET_MAX_XORB_CHUNKS", "40"), ("HF_XET_INGESTION_BLOCK_SIZE", "30000"), ("HF_XET_NRANGES_IN_STREAMING_FRAGMENTATION_ESTIMATOR", "4")], full: true, salt: 0x5a, never: true, opt_in: None, phases: &[] },
+    Config { name: "H: 4 KiB chunks, xorb limit 100,000 bytes, minimum shard size 2048 bytes, default ingestion block (8 MiB)", env: &[("HF_XET_TARGET_CHUNK_SIZE", "4096"), ("HF_XET_MAX_XORB_BYTES", "100000"), ("HF_XET_MDB_SHARD_MIN_TARGET_SIZE", "2048")], full: true, salt: 0, never: false, opt_in: None, phases: &[] },
+    Config { name: "I: 256-byte chunks with minimum = target/2 (no skip-ahead) and maximum = 4 x target, xorb limit 30,000 bytes, ingestion block 700 bytes (smaller than the largest chunk)", env: &[("HF_XET_TARGET_CHUNK_SIZE", "256"), ("HF_XET_MINIMUM_CHUNK_DIVISOR", "2"), ("HF_XET_MAXIMUM_CHUNK_MULTIPLIER", "4"), ("HF_XET_MAX_XORB_BYTES", "30000"), ("HF_XET_INGESTION_BLOCK_SIZE", "700")], full: true, salt: 0, never: false, opt_in: None, phases: &[] },
+    // histories across PROCESSES (the shard cache is read back from disk; pointers travel as pointer files)
+    Config { name: "P: three processes over one store (upload; a session that dies without finalize; download + upload), 4 KiB chunks, xorb limit 100,000 bytes, minimum shard size 2048 bytes, repo salt 0x33..", env: &[("HF_XET_TARGET_CHUNK_SIZE", "4096"), ("HF_XET_MAX_XORB_BYTES", "100000"), ("HF_XET_MDB_SHARD_MIN_TARGET_SIZE", "2048"), ("HF_XET_INGESTION_BLOCK_SIZE", "65536")], full: false, salt: 0x33, never: false, opt_in: None, phases: &[1, 2, 3] },
+    Config { name: "Q: two processes over one store, cached shards expire at once (local cache expiration 0 s, deletion buffer 0 s), 4 KiB chunks, xorb limit 60 chunks", env: &[("HF_XET_TARGET_CHUNK_SIZE", "4096"), ("HF_XET_MAX_XORB_CHUNKS", "60"), ("HF_XET_MDB_SHARD_LOCAL_CACHE_EXPIRATION_SECS", "0"), ("HF_XET_MDB_SHARD_EXPIRATION_BUFFER_SECS", "0"), ("HF_XET_INGESTION_BLOCK_SIZE", "65536")], full: false, salt: 0, never: true, opt_in: None, phases: &[1, 3] },
+    // opt-in probe: a xorb byte limit smaller than the largest chunk (8192 bytes)
+    Config { name: "X: 4 KiB chunks, xorb limit 6000 bytes (smaller than the largest chunk), ingestion block 20,000 bytes", env: &[("HF_XET_TARGET_CHUNK_SIZE", "4096"), ("HF_XET_MAX_XORB_BYTES", "6000"), ("HF_XET_INGESTION_BLOCK_SIZE", "20000")], full: false, salt: 0, never: false, opt_in: Some("VERIF_C01_TINY_XORB"), phases: &[] },
+];
+
+/// the layout of `TranslatorConfig::local_config`, with the salt and the global dedup policy chosen by the caller
+fn make_cfg(base: &Path, salt: [u8; 32], never: bool) -> Arc<TranslatorConfig> {
+    let path = base.join("xet");
+    std::fs::create_dir_all(&path).expect("store directory");
+    Arc::new(TranslatorConfig {
+        data_config: DataConfig {
+            endpoint: Endpoint::FileSystem(path.join("xorbs")),
+            compression: Default::default(),
+            auth: None,
+            prefix: "default".into(),
+            cache_config: CacheConfig { cache_directory: path.join("cache"), cache_size: *cas_client::CHUNK_CACHE_SIZE_BYTES },
+            staging_directory: None,
+        },
+        shard_config: ShardConfig {
+            prefix: "default".into(),
+            cache_directory: path.join("shard-cache"),
+            session_directory: path.join("shard-session"),
+            global_dedup_policy: if never { GlobalDedupPolicy::Never } else { GlobalDedupPolicy::Always },
+            repo_salt: salt,
+        },
+        repo_info: Some(RepoInfo { repo_paths: vec!["".into()] }),
+    })
+}
 
 // ---------------------------------------------------------------------------------------------------------------------------------
 // independent reference: chunk boundaries, file hash
@@ -383,7 +478,8 @@ async fn upload(cfg: Arc<TranslatorConfig>, tp: Arc<ThreadPool>, specs: &[Spec],
         }
         pointers = out.into_iter().map(|p| p.unwrap()).collect();
     }
-    session.finalize().await.map_err(|e| format!("finalize fails: {e}"))?;
+    let m = session.finalize().await.map_err(|e| format!("finalize fails: {e}"))?;
+    note_metrics(&m);
     Ok(pointers)
 }
 
@@ -416,7 +512,7 @@ async fn download_check(cfg: Arc<TranslatorConfig>, tp: Arc<ThreadPool>, spec: &
     Ok(())
 }
 
-async fn run_all(tp: Arc<ThreadPool>, l: Arc<Limits>, specs: Arc<Vec<Spec>>, sessions: Arc<Vec<Session>>, cfg_name: String) -> Option<String> {
+async fn run_all(tp: Arc<ThreadPool>, l: Arc<Limits>, specs: Arc<Vec<Spec>>, sessions: Arc<Vec<Session>>, cfg_name: String, salt: [u8; 32], never: bool) -> Option<String> {
     let small = if l.target >= 65536 { 4096 } else { 300 };
     let parts = [
         ("a single add_data call per file", Part::One),
@@ -430,8 +526,12 @@ async fn run_all(tp: Arc<ThreadPool>, l: Arc<Limits>, specs: Arc<Vec<Spec>>, ses
         let mut uploaded: Vec<(usize, PointerFile, usize)> = vec![];
         for (si, s) in sessions.iter().enumerate() {
             let ctx = format!("config {cfg_name}; store filled by sessions 1..{} fed with {pname}{}", si + 1, if s.round_robin { " (this session: all cleaners fed round-robin)" } else { "" });
-            let cfg = match TranslatorConfig::local_config(dir.path()) { Ok(c) => c, Err(e) => return Some(format!("{ctx}: local_config fails: {e}")) };
-            let salt = cfg.shard_config.repo_salt;
+            // the zero-salt, policy-Always configurations keep using the public constructor
+            let cfg = if salt == [0u8; 32] && !never {
+                match TranslatorConfig::local_config(dir.path()) { Ok(c) => c, Err(e) => return Some(format!("{ctx}: local_config fails: {e}")) }
+            } else {
+                make_cfg(dir.path(), salt, never)
+            };
             let pointers = match upload(cfg.clone(), tp.clone(), &specs, s, part).await {
                 Ok(p) => p,
                 Err(e) => return Some(format!("{ctx}: session {} does not complete: {e}", si + 1)),
@@ -452,7 +552,7 @@ async fn run_all(tp: Arc<ThreadPool>, l: Arc<Limits>, specs: Arc<Vec<Spec>>, ses
             }
             // every file uploaded so far into this store must download correctly
             for (f, p, from) in &uploaded {
-                let cfg = TranslatorConfig::local_config(dir.path()).unwrap();
+                let cfg = make_cfg(dir.path(), salt, never);
                 if let Err(e) = download_check(cfg, tp.clone(), &specs[*f], p, scratch.path()).await {
                     return Some(format!("{ctx}: after session {} (file uploaded in session {from}): {e}", si + 1));
                 }
@@ -462,8 +562,861 @@ async fn run_all(tp: Arc<ThreadPool>, l: Arc<Limits>, specs: Arc<Vec<Spec>>, ses
     None
 }
 
-fn child(idx: usize) -> i32 {
-    let (cfg_name, env) = CONFIGS[idx];
+// ---------------------------------------------------------------------------------------------------------------------------------
+// statistics for VERIF_C01_TIMING (never part of a verdict)
+// ---------------------------------------------------------------------------------------------------------------------------------
+
+/// what the extras are doing right now (named when the code under test panics)
+static CURRENT_STEP: std::sync::Mutex<String> = std::sync::Mutex::new(String::new());
+static STAT_SESSIONS: std::sync::atomic::AtomicUsize = std::sync::atomic::AtomicUsize::new(0);
+static STAT_DEDUP_CHUNKS: std::sync::atomic::AtomicUsize = std::sync::atomic::AtomicUsize::new(0);
+static STAT_NEW_CHUNKS: std::sync::atomic::AtomicUsize = std::sync::atomic::AtomicUsize::new(0);
+static STAT_DEFRAG_CHUNKS: std::sync::atomic::AtomicUsize = std::sync::atomic::AtomicUsize::new(0);
+static STAT_DOWNLOADS: std::sync::atomic::AtomicUsize = std::sync::atomic::AtomicUsize::new(0);
+static STAT_MAX_SHARDS: std::sync::atomic::AtomicUsize = std::sync::atomic::AtomicUsize::new(0);
+
+fn note_metrics(m: &deduplication::DeduplicationMetrics) {
+    use std::sync::atomic::Ordering::Relaxed;
+    STAT_SESSIONS.fetch_add(1, Relaxed);
+    STAT_DEDUP_CHUNKS.fetch_add(m.deduped_chunks, Relaxed);
+    STAT_NEW_CHUNKS.fetch_add(m.new_chunks, Relaxed);
+    STAT_DEFRAG_CHUNKS.fetch_add(m.defrag_prevented_dedup_chunks, Relaxed);
+}
+
+// ---------------------------------------------------------------------------------------------------------------------------------
+// independent SHA-256 (FIPS 180-4), self-tested in `child`
+// ---------------------------------------------------------------------------------------------------------------------------------
+
+fn sha256_hex(data: &[u8]) -> String {
+    const K: [u32; 64] = [
+        0x428a2f98, 0x71374491, 0xb5c0fbcf, 0xe9b5dba5, 0x3956c25b, 0x59f111f1, 0x923f82a4, 0xab1c5ed5, 0xd807aa98, 0x12835b01, 0x243185be, 0x550c7dc3, 0x72be5d74, 0x80deb1fe,
+        0x9bdc06a7, 0xc19bf174, 0xe49b69c1, 0xefbe4786, 0x0fc19dc6, 0x240ca1cc, 0x2de92c6f, 0x4a7484aa, 0x5cb0a9dc, 0x76f988da, 0x983e5152, 0xa831c66d, 0xb00327c8, 0xbf597fc7,
+        0xc6e00bf3, 0xd5a79147, 0x06ca6351, 0x14292967, 0x27b70a85, 0x2e1b2138, 0x4d2c6dfc, 0x53380d13, 0x650a7354, 0x766a0abb, 0x81c2c92e, 0x92722c85, 0xa2bfe8a1, 0xa81a664b,
+        0xc24b8b70, 0xc76c51a3, 0xd192e819, 0xd6990624, 0xf40e3585, 0x106aa070, 0x19a4c116, 0x1e376c08, 0x2748774c, 0x34b0bcb5, 0x391c0cb3, 0x4ed8aa4a, 0x5b9cca4f, 0x682e6ff3,
+        0x748f82ee, 0x78a5636f, 0x84c87814, 0x8cc70208, 0x90befffa, 0xa4506ceb, 0xbef9a3f7, 0xc67178f2,
+    ];
+    let mut h: [u32; 8] = [0x6a09e667, 0xbb67ae85, 0x3c6ef372, 0xa54ff53a, 0x510e527f, 0x9b05688c, 0x1f83d9ab, 0x5be0cd19];
+    let mut tail = data[data.len() - data.len() % 64..].to_vec();
+    tail.push(0x80);
+    while tail.len() % 64 != 56 {
+        tail.push(0);
+    }
+    tail.extend_from_slice(&((data.len() as u64) * 8).to_be_bytes());
+    let mut w = [0u32; 64];
+    for block in data[..data.len() - data.len() % 64].chunks_exact(64).chain(tail.chunks_exact(64)) {
+        for i in 0..16 {
+            w[i] = u32::from_be_bytes([block[4 * i], block[4 * i + 1], block[4 * i + 2], block[4 * i + 3]]);
+        }
+        for i in 16..64 {
+            let s0 = w[i - 15].rotate_right(7) ^ w[i - 15].rotate_right(18) ^ (w[i - 15] >> 3);
+            let s1 = w[i - 2].rotate_right(17) ^ w[i - 2].rotate_right(19) ^ (w[i - 2] >> 10);
+            w[i] = w[i - 16].wrapping_add(s0).wrapping_add(w[i - 7]).wrapping_add(s1);
+        }
+        let [mut a, mut b, mut c, mut d, mut e, mut f, mut g, mut hh] = h;
+        for i in 0..64 {
+            let s1 = e.rotate_right(6) ^ e.rotate_right(11) ^ e.rotate_right(25);
+            let ch = (e & f) ^ (!e & g);
+            let t1 = hh.wrapping_add(s1).wrapping_add(ch).wrapping_add(K[i]).wrapping_add(w[i]);
+            let s0 = a.rotate_right(2) ^ a.rotate_right(13) ^ a.rotate_right(22);
+            let maj = (a & b) ^ (a & c) ^ (b & c);
+            let t2 = s0.wrapping_add(maj);
+            hh = g;
+            g = f;
+            f = e;
+            e = d.wrapping_add(t1);
+            d = c;
+            c = b;
+            b = a;
+            a = t1.wrapping_add(t2);
+        }
+        for (x, y) in h.iter_mut().zip([a, b, c, d, e, f, g, hh]) {
+            *x = x.wrapping_add(y);
+        }
+    }
+    h.iter().map(|x| format!("{x:08x}")).collect()
+}
+
+fn sha256_selftest() -> bool {
+    let million_a = vec![b'a'; 1_000_000];
+    sha256_hex(b"") == "e3b0c44298fc1c149afbf4c8996fb92427ae41e4649b934ca495991b7852b855"
+        && sha256_hex(b"abc") == "ba7816bf8f01cfea414140de5dae2223b00361a396177a9cb410ff61f20015ad"
+        && sha256_hex(b"abcdbcdecdefdefgefghfghighijhijkijkljklmklmnlmnomnopnopq") == "248d6a61d20638b8e5c026930c3e6039a33ce45964ff2167f6ecedd419db06c1"
+        && sha256_hex(&million_a) == "cdc76e5c9914fb9281a1c7e284d73e67f1809a48a497200e046d39ccc7112cd0"
+}
+
+// ---------------------------------------------------------------------------------------------------------------------------------
+// extras: entry points, API edge cases, boundary sizes, histories, salts (see the header)
+// ---------------------------------------------------------------------------------------------------------------------------------
+
+#[derive(Clone, Debug)]
+enum Feed {
+    /// add_data calls of these sizes
+    Parts(Part),
+    /// the same, with an empty slice before every call and after the last one
+    WithEmpty(Part),
+    /// start_clean and finish, no add_data at all (only for the empty file)
+    NoAddData,
+    /// written to disk and cleaned with data::data_client::clean_file
+    RealFile,
+}
+impl Feed {
+    fn describe(&self) -> String {
+        match self {
+            Feed::Parts(Part::One) => "one add_data call".into(),
+            Feed::Parts(Part::Cycle(c)) => format!("add_data calls of {c:?} bytes (cyclic)"),
+            Feed::WithEmpty(p) => format!("{} with an EMPTY add_data call before each and after the last", Feed::Parts(p.clone()).describe()),
+            Feed::NoAddData => "start_clean + finish without any add_data call".into(),
+            Feed::RealFile => "a real file cleaned with data_client::clean_file".into(),
+        }
+    }
+}
+
+#[derive(Clone)]
+struct XF {
+    name: String,
+    what: String,
+    data: Arc<Vec<u8>>,
+    feed: Feed,
+}
+fn xf(name: &str, what: impl Into<String>, data: Vec<u8>, feed: Feed) -> XF {
+    XF { name: name.into(), what: what.into(), data: Arc::new(data), feed }
+}
+impl XF {
+    fn label(&self) -> String {
+        format!("file '{}' ({}; {} bytes; fed as {})", self.name, self.what, self.data.len(), self.feed.describe())
+    }
+}
+
+struct Done {
+    pointers: Vec<PointerFile>,
+    infos: Vec<MDBFileInfo>,
+}
+
+async fn feed_one(session: &Arc<FileUploadSession>, f: &XF, files_dir: &Path, yielding: bool) -> Result<PointerFile, String> {
+    if let Feed::RealFile = f.feed {
+        let path = files_dir.join(&f.name);
+        std::fs::write(&path, &f.data[..]).map_err(|e| format!("infrastructure: cannot write {path:?}: {e}"))?;
+        let (p, m) = data::data_client::clean_file(session.clone(), &path).await.map_err(|e| format!("clean_file fails on {}: {e}", f.label()))?;
+        if p.path() != path.to_string_lossy() {
+            return Err(format!("clean_file on {}: the pointer carries path {:?}, the file is {path:?}", f.label(), p.path()));
+        }
+        if m.total_bytes != f.data.len() {
+            return Err(format!("clean_file on {}: the metrics report {} bytes", f.label(), m.total_bytes));
+        }
+        return Ok(p);
+    }
+    let mut cleaner = session.start_clean(f.name.clone());
+    let (part, with_empty) = match &f.feed {
+        Feed::Parts(p) => (Some(p), false),
+        Feed::WithEmpty(p) => (Some(p), true),
+        _ => (None, false),
+    };
+    if let Some(part) = part {
+        let mut pos = 0;
+        for n in pieces(f.data.len(), part) {
+            if with_empty {
+                cleaner.add_data(&[]).await.map_err(|e| format!("add_data(empty slice) fails on {} at offset {pos}: {e}", f.label()))?;
+            }
+            cleaner.add_data(&f.data[pos..pos + n]).await.map_err(|e| format!("add_data fails on {} at offset {pos} (+{n}): {e}", f.label()))?;
+            pos += n;
+            if yielding {
+                tokio::task::yield_now().await;
+            }
+        }
+        if with_empty {
+            cleaner.add_data(&[]).await.map_err(|e| format!("add_data(empty slice) fails on {} at the end: {e}", f.label()))?;
+        }
+    }
+    let (p, m) = cleaner.finish().await.map_err(|e| format!("finish fails on {}: {e}", f.label()))?;
+    if m.total_bytes != f.data.len() {
+        return Err(format!("finish on {}: the metrics report {} bytes", f.label(), m.total_bytes));
+    }
+    Ok(p)
+}
+
+#[derive(Debug, Default)]
+struct CountingUpdater(std::sync::atomic::AtomicU64);
+impl utils::progress::ProgressUpdater for CountingUpdater {
+    fn update(&self, increment: u64) {
+        self.0.fetch_add(increment, std::sync::atomic::Ordering::Relaxed);
+    }
+}
+
+/// one session: all files one after the other, or each in its own concurrently running task; finalize_with_file_info
+async fn xsession(cfg: Arc<TranslatorConfig>, tp: Arc<ThreadPool>, files: &[XF], concurrent: bool, files_dir: &Path) -> Result<Done, String> {
+    // the optional progress updater is given in the concurrent sessions
+    let updater: Option<Arc<dyn utils::progress::ProgressUpdater>> = if concurrent { Some(Arc::new(CountingUpdater::default())) } else { None };
+    let session = FileUploadSession::new(cfg, tp, updater).await.map_err(|e| format!("FileUploadSession::new fails: {e}"))?;
+    let mut pointers: Vec<Option<PointerFile>> = files.iter().map(|_| None).collect();
+    if !concurrent {
+        for (i, f) in files.iter().enumerate() {
+            pointers[i] = Some(feed_one(&session, f, files_dir, false).await?);
+        }
+    } else {
+        let mut tasks = tokio::task::JoinSet::new();
+        for (i, f) in files.iter().enumerate() {
+            let (s, f, d) = (session.clone(), f.clone(), files_dir.to_path_buf());
+            tasks.spawn(async move {
+                let r = feed_one(&s, &f, &d, true).await;
+                drop(s);
+                (i, r)
+            });
+        }
+        let mut first_err: Option<(usize, String)> = None;
+        while let Some(j) = tasks.join_next().await {
+            match j {
+                Ok((i, Ok(p))) => pointers[i] = Some(p),
+                Ok((i, Err(e))) => {
+                    if first_err.as_ref().map(|(k, _)| i < *k).unwrap_or(true) {
+                        first_err = Some((i, e));
+                    }
+                },
+                Err(e) => return Err(format!("a cleaner task panicked or was cancelled: {e}")),
+            }
+        }
+        if let Some((_, e)) = first_err {
+            return Err(e);
+        }
+    }
+    let (m, infos) = session.finalize_with_file_info().await.map_err(|e| format!("finalize_with_file_info fails: {e}"))?;
+    note_metrics(&m);
+    Ok(Done { pointers: pointers.into_iter().map(|p| p.unwrap()).collect(), infos })
+}
+
+/// expected pointer hashes, computed once per (content, salt)
+#[derive(Default)]
+struct Refs {
+    hash: HashMap<(usize, usize, [u8; 32]), MerkleHash>,
+    sha: HashMap<(usize, usize), String>,
+}
+impl Refs {
+    fn file_hash(&mut self, l: &Limits, f: &XF, salt: &[u8; 32]) -> MerkleHash {
+        *self.hash.entry((Arc::as_ptr(&f.data) as usize, f.data.len(), *salt)).or_insert_with(|| reference_file_hash(&f.data, l, salt))
+    }
+    fn sha(&mut self, f: &XF) -> String {
+        self.sha.entry((Arc::as_ptr(&f.data) as usize, f.data.len())).or_insert_with(|| sha256_hex(&f.data)).clone()
+    }
+}
+
+/// pointer (size, hash) and the session's file records (presence, size, segment bytes, SHA-256)
+fn check_done(l: &Limits, refs: &mut Refs, salt: &[u8; 32], files: &[XF], done: &Done) -> Option<String> {
+    for (f, p) in files.iter().zip(&done.pointers) {
+        if !p.is_valid() {
+            return Some(format!("{}: the pointer returned by the cleaner is not valid", f.label()));
+        }
+        if p.filesize() != f.data.len() as u64 {
+            return Some(format!("{}: the pointer records size {}", f.label(), p.filesize()));
+        }
+        let want = refs.file_hash(l, f, salt);
+        if *p.hash_string() != want.hex() {
+            return Some(format!("{}: the pointer carries hash {} but the hash computed from the bytes alone (reference chunking, aggregate construction, salt {:02x}..) is {}", f.label(), p.hash_string(), salt[0], want.hex()));
+        }
+        let Some(fi) = done.infos.iter().find(|fi| fi.metadata.file_hash == want) else {
+            return Some(format!("{}: finalize_with_file_info returns {} file records, none for this file's hash {}", f.label(), done.infos.len(), want.hex()));
+        };
+        let seg_bytes: u64 = fi.segments.iter().map(|s| s.unpacked_segment_bytes as u64).sum();
+        if fi.file_size() != f.data.len() || seg_bytes != f.data.len() as u64 {
+            return Some(format!("{}: its file record has size {} / segment bytes {}", f.label(), fi.file_size(), seg_bytes));
+        }
+        if fi.segments.iter().any(|s| s.chunk_index_end <= s.chunk_index_start || s.cas_hash == MerkleHash::default()) {
+            return Some(format!("{}: its file record has an empty or unnamed segment: {:?}", f.label(), fi.segments));
+        }
+        match &fi.metadata_ext {
+            None => return Some(format!("{}: its file record carries no SHA-256", f.label())),
+            Some(ext) => {
+                let want_sha = refs.sha(f);
+                if ext.sha256.hex() != want_sha {
+                    return Some(format!("{}: its file record carries SHA-256 {} but the SHA-256 of the fed bytes is {want_sha}", f.label(), ext.sha256.hex()));
+                }
+            },
+        }
+    }
+    None
+}
+
+/// download through every public path; `thorough` adds the pointer text round trip, smudge_file_from_hash and the edge ranges
+async fn xdownload(dl: &FileDownloader, f: &XF, p: &PointerFile, scratch: &Path, thorough: bool) -> Result<(), String> {
+    let len = f.data.len() as u64;
+    // (range, lenient): lenient = the range reaches beyond the file: an error is accepted, data must be the part inside the file
+    let mut ranges: Vec<(Option<(u64, u64)>, bool)> = vec![(None, false)];
+    if thorough {
+        ranges.push((Some((0, len)), false));
+        ranges.push((Some((len / 2, len / 2)), false));
+        ranges.push((Some((len, len)), false));
+        ranges.push((Some((len / 2, len + 1000)), true));
+        if len > 0 {
+            ranges.push((Some((0, 1)), false));
+            ranges.push((Some((len - 1, len)), false));
+        }
+        if len > 2 {
+            ranges.push((Some((len / 3, 2 * len / 3)), false));
+            ranges.push((Some((1, len - 1)), false));
+        }
+    } else if len > 2 {
+        ranges.push((Some((len / 3, 2 * len / 3 + 1)), false));
+    }
+    let mut q = p.clone();
+    if thorough {
+        // text round trip
+        let text = p.to_string();
+        q = PointerFile::init_from_string(&text, p.path());
+        if !q.is_valid() || q.hash_string() != p.hash_string() || q.filesize() != p.filesize() || q != *p {
+            return Err(format!("{}: the pointer file text {text:?} parses (init_from_string) to valid={} hash={} size={}, the pointer was hash={} size={}", f.label(), q.is_valid(), q.hash_string(), q.filesize(), p.hash_string(), p.filesize()));
+        }
+        let ppath = scratch.join("pointer.txt");
+        std::fs::write(&ppath, &text).map_err(|e| format!("infrastructure: {e}"))?;
+        let r = PointerFile::init_from_path(&ppath);
+        if !r.is_valid() || r.hash_string() != p.hash_string() || r.filesize() != p.filesize() {
+            return Err(format!("{}: the pointer file text {text:?} ({} bytes) written to disk parses (init_from_path) to valid={} hash={} size={}", f.label(), text.len(), r.is_valid(), r.hash_string(), r.filesize()));
+        }
+    }
+    for (k, (r, lenient)) in ranges.into_iter().enumerate() {
+        let out = scratch.join("download.bin");
+        let _ = std::fs::remove_file(&out);
+        let prov = OutputProvider::File(FileProvider::new(out.clone()));
+        let range = r.map(|(a, b)| FileRange { start: a, end: b });
+        let rdesc = r.map(|r| format!("byte range {r:?}")).unwrap_or("the whole file".into());
+        STAT_DOWNLOADS.fetch_add(1, std::sync::atomic::Ordering::Relaxed);
+        // alternate between the two public download calls
+        let (res, via) = if thorough && k % 2 == 1 {
+            let h = q.hash().map_err(|_| format!("{}: PointerFile::hash() of the re-parsed pointer fails", f.label()))?;
+            let up: Arc<dyn utils::progress::ProgressUpdater> = Arc::new(CountingUpdater::default());
+            (dl.smudge_file_from_hash(&h, &prov, range, Some(up)).await, "smudge_file_from_hash")
+        } else {
+            (dl.smudge_file_from_pointer(&q, &prov, range, None).await, "smudge_file_from_pointer")
+        };
+        let n = match res {
+            Ok(n) => n,
+            Err(_) if lenient => continue,
+            Err(e) => return Err(format!("{}: {via} fails for {rdesc}: {e}", f.label())),
+        };
+        let got = std::fs::read(&out).unwrap_or_default();
+        let (a, b) = r.unwrap_or((0, len));
+        let want = &f.data[a as usize..b.min(len) as usize];
+        if got != want || n != want.len() as u64 {
+            let i = got.iter().zip(want.iter()).position(|(x, y)| x != y).unwrap_or(got.len().min(want.len()));
+            return Err(format!("{}: {via} for {rdesc} returns {} bytes (reported {n}), the fed data has {} there; first difference at offset {i} of the requested range", f.label(), got.len(), want.len()));
+        }
+    }
+    Ok(())
+}
+
+struct Xs {
+    tp: Arc<ThreadPool>,
+    l: Arc<Limits>,
+    cfg_name: String,
+    never: bool,
+    refs: Refs,
+    files_dir: tempfile::TempDir,
+    scratch: tempfile::TempDir,
+}
+impl Xs {
+    /// session + pointer / record checks + thorough download of its files + plain re-download of the earlier files of the store
+    async fn step(&mut self, ctx: &str, store: &Path, salt: [u8; 32], files: &[XF], concurrent: bool, earlier: &mut Vec<(XF, PointerFile, [u8; 32])>) -> Option<String> {
+        let ctx = format!("config {}; extras, {ctx}", self.cfg_name);
+        *CURRENT_STEP.lock().unwrap_or_else(|e| e.into_inner()) = format!("{ctx}; files: {}", files.iter().map(|f| format!("'{}' ({} bytes)", f.name, f.data.len())).collect::<Vec<_>>().join(", "));
+        let done = match xsession(make_cfg(store, salt, self.never), self.tp.clone(), files, concurrent, self.files_dir.path()).await {
+            Ok(d) => d,
+            Err(e) => return Some(format!("{ctx}: the session does not complete: {e}")),
+        };
+        if let Some(w) = check_done(&self.l, &mut self.refs, &salt, files, &done) {
+            return Some(format!("{ctx}: {w}"));
+        }
+        let n_shards = std::fs::read_dir(store.join("xet").join("xorbs").join("shards")).map(|d| d.count()).unwrap_or(0);
+        STAT_MAX_SHARDS.fetch_max(n_shards, std::sync::atomic::Ordering::Relaxed);
+        let dl = match FileDownloader::new(make_cfg(store, salt, self.never), self.tp.clone()).await {
+            Ok(d) => d,
+            Err(e) => return Some(format!("{ctx}: FileDownloader::new fails: {e}")),
+        };
+        for (f, p, _) in earlier.iter() {
+            if let Err(e) = xdownload(&dl, f, p, self.scratch.path(), false).await {
+                return Some(format!("{ctx}: after this session, a file of an EARLIER session of the store: {e}"));
+            }
+        }
+        for (f, p) in files.iter().zip(&done.pointers) {
+            if let Err(e) = xdownload(&dl, f, p, self.scratch.path(), true).await {
+                return Some(format!("{ctx}: {e}"));
+            }
+            earlier.push((f.clone(), p.clone(), salt));
+        }
+        None
+    }
+}
+
+/// whole fresh chunks followed by the prefix of one more chunk: exactly `total` bytes, chunk lengths known
+fn exact_bytes(pool: &mut Pool, l: &Limits, total: usize) -> (Vec<u8>, usize) {
+    let mut out = Vec::with_capacity(total);
+    let mut n = 0;
+    while out.len() < total {
+        let c = pool.fresh(l, 1).pop().unwrap();
+        let take = c.len().min(total - out.len());
+        out.extend_from_slice(&c[..take]);
+        n += 1;
+    }
+    (out, n)
+}
+
+async fn extras(tp: Arc<ThreadPool>, l: Arc<Limits>, cfg_name: String, seed: u64, never: bool) -> Option<String> {
+    let mut pool = Pool { rng: StdRng::seed_from_u64(seed ^ 0xE57A), chunks: vec![], next: 0 };
+    let mut rng = StdRng::seed_from_u64(seed ^ 0xE57B);
+    let (mn, mx) = (l.target / l.div, l.target * l.mult);
+    let small = if l.target >= 65536 { 4096 } else { 300 };
+    let one = Feed::Parts(Part::One);
+    let smalls = Feed::Parts(Part::Cycle(vec![small, 1, small + 333]));
+    let mixed = Feed::Parts(Part::Cycle(vec![2 * l.ingestion + 123, 5, 70_000, l.ingestion, 11]));
+    let zero = [0u8; 32];
+    let mut random = |n: usize| -> Vec<u8> {
+        let mut v = vec![0u8; n];
+        rng.fill(&mut v[..]);
+        v
+    };
+    let mut x = Xs { tp, l: l.clone(), cfg_name, never, refs: Refs::default(), files_dir: tempfile::tempdir().unwrap(), scratch: tempfile::tempdir().unwrap() };
+
+    // ---- E1: data_client::clean_file on real files; E2: cleaner API edge cases (one store, two sessions)
+    {
+        let store = tempfile::tempdir().unwrap();
+        let mut earlier = vec![];
+        let ing = l.ingestion;
+        // the buffer of clean_file is min(file size, ingestion block); 0 is special-cased
+        let mut sizes = if ing <= 4 << 20 { vec![0usize, 1, ing - 1, ing, ing + 1] } else { vec![0usize, 1, 100_000, (1 << 20) + 3] };
+        if ing <= 1 << 20 {
+            sizes.extend([2 * ing, 2 * ing + 7]);
+        }
+        let mut files: Vec<XF> = sizes.iter().map(|&n| xf(&format!("real-{n}"), format!("{n} fresh random bytes; the ingestion block is {ing}"), random(n), Feed::RealFile)).collect();
+        let copy = files[3].clone();
+        files.push(XF { name: "real-copy".into(), what: format!("the same bytes as real-{ing}"), ..copy });
+        if let Some(w) = x.step("E1 (one session, every file cleaned with data_client::clean_file from disk)", store.path(), zero, &files, false, &mut earlier).await {
+            return Some(w);
+        }
+        let body = cat(&[&pool.fresh(&l, 5)]);
+        let api = vec![
+            xf("no-add-data", "empty", vec![], Feed::NoAddData),
+            xf("only-empty-slices", "empty", vec![], Feed::WithEmpty(Part::One)),
+            xf("empty-interleaved-1", "5 fresh chunks", body.clone(), Feed::WithEmpty(Part::Cycle(vec![small, 1, small + 333]))),
+            xf("empty-interleaved-2", "the same 5 chunks + 1 byte", [&body[..], &[7u8][..]].concat(), Feed::WithEmpty(Part::Cycle(vec![mx + 1, 1]))),
+            xf("plain", "the same 5 chunks", body.clone(), one.clone()),
+        ];
+        // a cleaner that is fed and dropped without finish, in the same session, must not disturb the others: done inside a
+        // dedicated session below (E4); here the API shapes only
+        if let Some(w) = x.step("E2 (second session of the E1 store)", store.path(), zero, &api, false, &mut earlier).await {
+            return Some(w);
+        }
+    }
+
+    // ---- E3: boundary sizes
+    {
+        let mut files = vec![];
+        for (tag, n) in [("min-1", mn - 1), ("min", mn), ("min+1", mn + 1), ("max-1", mx - 1), ("max", mx), ("max+1", mx + 1)] {
+            files.push(xf(&format!("random-{tag}"), format!("{n} random bytes; chunk sizes are {mn}..{mx}"), random(n), if files.len() % 2 == 0 { one.clone() } else { smalls.clone() }));
+        }
+        for (tag, n) in [("max-1", mx - 1), ("max", mx), ("max+1", mx + 1), ("2max", 2 * mx), ("2max+1", 2 * mx + 1)] {
+            files.push(xf(&format!("zeros-{tag}"), format!("{n} zero bytes; the maximum chunk is {mx}"), vec![0u8; n], if files.len() % 2 == 0 { one.clone() } else { mixed.clone() }));
+        }
+        let (c1, c3) = (pool.fresh(&l, 1), pool.fresh(&l, 3));
+        files.push(xf("last-chunk-1-byte-a", "1 whole chunk + 1 byte", [&cat(&[&c1])[..], &[0x5a][..]].concat(), one.clone()));
+        files.push(xf("last-chunk-1-byte-b", "3 whole chunks + 1 byte", [&cat(&[&c3])[..], &[0xa5][..]].concat(), smalls.clone()));
+        let n_common = files.len();
+        if l.xorb_bytes <= 4_000_000 {
+            for (tag, n) in [("-1", l.xorb_bytes - 1), ("", l.xorb_bytes), ("+1", l.xorb_bytes + 1)] {
+                let (d, k) = exact_bytes(&mut pool, &l, n);
+                if k <= l.xorb_chunks {
+                    files.push(xf(&format!("xorb-bytes{tag}"), format!("{k} fresh chunks of together exactly {n} bytes; the xorb limit is {} bytes", l.xorb_bytes), d, if tag.is_empty() { one.clone() } else { mixed.clone() }));
+                }
+            }
+        }
+        if l.xorb_chunks <= 100 {
+            for (tag, k) in [("-1", l.xorb_chunks - 1), ("", l.xorb_chunks), ("+1", l.xorb_chunks + 1)] {
+                if k > 0 {
+                    files.push(xf(&format!("xorb-chunks{tag}"), format!("exactly {k} fresh chunks; the xorb limit is {} chunks", l.xorb_chunks), cat(&[&pool.fresh(&l, k)]), if tag.is_empty() { one.clone() } else { smalls.clone() }));
+                }
+            }
+        }
+        let store = tempfile::tempdir().unwrap();
+        let mut earlier = vec![];
+        if let Some(w) = x.step("E3 (boundary sizes, all files in one session)", store.path(), zero, &files, false, &mut earlier).await {
+            return Some(w);
+        }
+        // the exact-xorb files, each alone in its own session of a fresh store (nothing else in the session-level aggregate)
+        let store = tempfile::tempdir().unwrap();
+        let mut earlier = vec![];
+        for f in files[n_common..].iter().rev() {
+            if let Some(w) = x.step(&format!("E3 (fresh store, one session per file in reverse order; this session: '{}' alone)", f.name), store.path(), zero, std::slice::from_ref(f), false, &mut earlier).await {
+                return Some(w);
+            }
+        }
+    }
+
+    // ---- E4: histories
+    {
+        let store = tempfile::tempdir().unwrap();
+        let mut earlier = vec![];
+        let bx = pool.fresh_xorb(&l);
+        let base_chunks: Vec<Arc<Vec<u8>>> = [bx, pool.fresh(&l, 8)].concat();
+        let nb = base_chunks.len();
+        let base = cat(&[&base_chunks]);
+        let starts: Vec<usize> = base_chunks.iter().scan(0usize, |p, c| { let s = *p; *p += c.len(); Some(s) }).collect();
+        let poison_chunks: Vec<Arc<Vec<u8>>> = [pool.fresh_xorb(&l), pool.fresh(&l, 3)].concat();
+        let poison = cat(&[&poison_chunks]);
+        // (0) a session that is abandoned: two files finished, a third cleaner fed with all but 10 bytes of 'base' (its first xorb is cut and registered), nothing finalized
+        {
+            let ctx = format!("config {}; extras, E4 session 0 (to be dropped without finalize)", x.cfg_name);
+            let session = match FileUploadSession::new(make_cfg(store.path(), zero, never), x.tp.clone(), None).await { Ok(s) => s, Err(e) => return Some(format!("{ctx}: FileUploadSession::new fails: {e}")) };
+            for f in [xf("poison", "fresh chunks", poison.clone(), one.clone()), xf("base", "fresh chunks", base.clone(), smalls.clone())] {
+                if let Err(e) = feed_one(&session, &f, x.files_dir.path(), false).await {
+                    return Some(format!("{ctx}: {e}"));
+                }
+            }
+            let mut half = session.start_clean("half".into());
+            if let Err(e) = half.add_data(&base[..base.len() - 10]).await {
+                return Some(format!("{ctx}: add_data fails: {e}"));
+            }
+            drop(half);
+            drop(session);
+        }
+        let f_poison = xf("poison", format!("{} fresh chunks; the same file was cleaned and finished in session 0, which was dropped without finalize", poison_chunks.len()), poison.clone(), smalls.clone());
+        let f_base = xf("base", format!("{nb} fresh chunks (one full xorb + 8); also cleaned in the abandoned session 0"), base.clone(), one.clone());
+        // a cleaner fed and dropped inside a session that IS finalized
+        {
+            let ctx = format!("config {}; extras, E4 session 1 after an abandoned session 0 (first a cleaner fed with all but 10 bytes of 'base' and dropped without finish, then 'poison', 'base')", x.cfg_name);
+            let session = match FileUploadSession::new(make_cfg(store.path(), zero, never), x.tp.clone(), None).await { Ok(s) => s, Err(e) => return Some(format!("{ctx}: FileUploadSession::new fails: {e}")) };
+            let mut half = session.start_clean("half".into());
+            if let Err(e) = half.add_data(&base[..base.len() - 10]).await {
+                return Some(format!("{ctx}: add_data fails: {e}"));
+            }
+            drop(half);
+            let files = [f_poison.clone(), f_base.clone()];
+            let mut pointers = vec![];
+            for f in &files {
+                match feed_one(&session, f, x.files_dir.path(), false).await { Ok(p) => pointers.push(p), Err(e) => return Some(format!("{ctx}: {e}")) }
+            }
+            let infos = match session.finalize_with_file_info().await { Ok((m, i)) => { note_metrics(&m); i }, Err(e) => return Some(format!("{ctx}: finalize_with_file_info fails: {e}")) };
+            let done = Done { pointers, infos };
+            if let Some(w) = check_done(&l, &mut x.refs, &zero, &files, &done) {
+                return Some(format!("{ctx}: {w}"));
+            }
+            let dl = match FileDownloader::new(make_cfg(store.path(), zero, never), x.tp.clone()).await { Ok(d) => d, Err(e) => return Some(format!("{ctx}: FileDownloader::new fails: {e}")) };
+            for (f, p) in files.iter().zip(&done.pointers) {
+                if let Err(e) = xdownload(&dl, f, p, x.scratch.path(), true).await {
+                    return Some(format!("{ctx}: {e}"));
+                }
+                earlier.push((f.clone(), p.clone(), zero));
+            }
+        }
+        // slices of `base`: [from chunk a (+ off bytes), to chunk b (+ off bytes))
+        let slices = |prefix: &str, origin: &str, feed_a: &Feed, feed_b: &Feed| -> Vec<XF> {
+            let (q1, q2, q3) = (nb / 4, nb / 2, 3 * nb / 4);
+            let mid = |k: usize| starts[k] + base_chunks[k].len() / 2;
+            vec![
+                xf(&format!("{prefix}prefix-aligned"), format!("the first {q2} chunks of {origin}"), base[..starts[q2]].to_vec(), feed_a.clone()),
+                xf(&format!("{prefix}prefix-unaligned"), format!("the first {} bytes of {origin} (ends inside its chunk {q3})", mid(q3)), base[..mid(q3)].to_vec(), feed_b.clone()),
+                xf(&format!("{prefix}suffix-aligned"), format!("{origin} from its chunk {q1} on"), base[starts[q1]..].to_vec(), feed_b.clone()),
+                xf(&format!("{prefix}suffix-unaligned"), format!("{origin} from byte {} on (inside its chunk {q2})", mid(q2)), base[mid(q2)..].to_vec(), feed_a.clone()),
+                xf(&format!("{prefix}middle-aligned"), format!("chunks {q1}..{q3} of {origin}"), base[starts[q1]..starts[q3]].to_vec(), feed_a.clone()),
+                xf(&format!("{prefix}middle-unaligned"), format!("bytes {}..{} of {origin} (from inside chunk {q1} to inside chunk {q3})", mid(q1), mid(q3)), base[mid(q1)..mid(q3)].to_vec(), feed_b.clone()),
+                xf(&format!("{prefix}last-byte-cut"), format!("{origin} without its last byte"), base[..base.len() - 1].to_vec(), feed_a.clone()),
+                xf(&format!("{prefix}first-byte-cut"), format!("{origin} without its first byte"), base[1..].to_vec(), feed_b.clone()),
+            ]
+        };
+        let mut s2 = slices("", "'base' (session 1)", &one, &smalls);
+        let (n1, n2) = (pool.fresh(&l, 3), pool.fresh(&l, 1));
+        let (h1, h2) = (2.min(nb - 1), (nb / 2 + 1).min(nb - 1));
+        s2.push(xf(
+            "hit-new-hit",
+            format!("chunks {h1}..{} of 'base', 3 fresh chunks, chunks {h2}..{} of 'base', 1 fresh chunk, the last 2 chunks of 'poison'", (h1 + 4).min(nb), (h2 + 4).min(nb)),
+            cat(&[&base_chunks[h1..(h1 + 4).min(nb)], &n1, &base_chunks[h2..(h2 + 4).min(nb)], &n2, &poison_chunks[poison_chunks.len() - 2..]]),
+            mixed.clone(),
+        ));
+        s2.push(xf("base-again", "identical to 'base': fully deduplicated", base.clone(), smalls.clone()));
+        if let Some(w) = x.step("E4 session 2 (slices of a file of session 1)", store.path(), zero, &s2, false, &mut earlier).await {
+            return Some(w);
+        }
+        // the same shapes inside ONE session in a fresh store: base first, then its slices (answered by the session's own shard)
+        let store2 = tempfile::tempdir().unwrap();
+        let mut earlier2 = vec![];
+        let mut s3 = vec![xf("base", format!("{nb} fresh chunks (one full xorb + 8)"), base.clone(), mixed.clone())];
+        s3.extend(slices("same-session-", "'base' (cleaned first in this session)", &smalls, &one));
+        if let Some(w) = x.step("E4 (fresh store, ONE session: 'base', then its slices)", store2.path(), zero, &s3, false, &mut earlier2).await {
+            return Some(w);
+        }
+    }
+
+    // ---- E5: many tiny files in one session; E6: concurrent cleaner tasks
+    {
+        let store = tempfile::tempdir().unwrap();
+        let mut earlier = vec![];
+        let mut files: Vec<XF> = vec![];
+        let (mut bytes, mut chunks) = (0usize, 0usize);
+        while files.len() < 220 && !(bytes > l.xorb_bytes.saturating_mul(5) / 2 || chunks > l.xorb_chunks * 5 / 2 + 3) {
+            let k = files.len();
+            let (d, n, what) = if k % 7 == 6 {
+                ((*files[1].data).clone(), 2, "identical to tiny-1".to_string())
+            } else if k % 3 == 0 {
+                let n = 1 + (k * 37) % (mn - 1);
+                (random(n), 1, format!("{n} random bytes (less than a minimum chunk)"))
+            } else {
+                let c = pool.fresh(&l, 1);
+                let t = 1 + (k * 53) % (mn / 2);
+                ([&c[0][..], &random(t)[..]].concat(), 2, format!("one fresh chunk + {t} random bytes"))
+            };
+            bytes += d.len();
+            chunks += n;
+            files.push(xf(&format!("tiny-{k}"), what, d, if k % 2 == 0 { one.clone() } else { smalls.clone() }));
+        }
+        let n_tiny = files.len();
+        if let Some(w) = x.step(&format!("E5 (one session of {n_tiny} tiny files, {bytes} bytes in about {chunks} chunks: the session-level xorb is cut several times)"), store.path(), zero, &files, false, &mut earlier).await {
+            return Some(w);
+        }
+        // E6
+        let s = pool.fresh(&l, 12);
+        let (p1, p2) = (pool.fresh(&l, 2), pool.fresh(&l, 3));
+        let fx = pool.fresh_xorb(&l);
+        let mut conc = vec![
+            xf("conc-S", "12 fresh chunks S", cat(&[&s]), smalls.clone()),
+            xf("conc-S-copy", "identical to conc-S", cat(&[&s]), one.clone()),
+            xf("conc-S-shifted", "2 fresh chunks, then chunks 2.. of S", cat(&[&p1, &s[2..]]), smalls.clone()),
+            xf("conc-S-head", "chunks 0..8 of S, then 3 fresh", cat(&[&s[..8], &p2]), mixed.clone()),
+            xf("conc-fresh-1", "one full xorb of fresh chunks + 2", cat(&[&fx, &pool.fresh(&l, 2)]), smalls.clone()),
+            xf("conc-fresh-2", "7 fresh chunks", cat(&[&pool.fresh(&l, 7)]), smalls.clone()),
+            xf("conc-real", "5 fresh chunks, cleaned with clean_file from disk", cat(&[&pool.fresh(&l, 5)]), Feed::RealFile),
+            xf("conc-empty", "empty", vec![], Feed::NoAddData),
+        ];
+        for k in 0..6 {
+            let n = 1 + (k * 211) % (mn - 1);
+            conc.push(xf(&format!("conc-tiny-{k}"), format!("{n} random bytes"), random(n), one.clone()));
+        }
+        for round in 0..2 {
+            // round 1 repeats the session in the same store: everything is known now
+            if let Some(w) = x.step(&format!("E6 round {round} (store of E5; ONE session, {} files each cleaned by its own concurrently running task)", conc.len()), store.path(), zero, &conc, true, &mut earlier).await {
+                return Some(w);
+            }
+        }
+    }
+
+    // ---- E7: salts
+    {
+        let store = tempfile::tempdir().unwrap();
+        let mut earlier = vec![];
+        let m = pool.fresh(&l, 9);
+        let files = vec![
+            xf("salt-one-byte", "a single byte", vec![0x42], one.clone()),
+            xf("salt-sub-chunk", "less than a minimum chunk", random(mn / 2), one.clone()),
+            xf("salt-multi", "9 fresh chunks", cat(&[&m]), smalls.clone()),
+            xf("salt-multi-tail", "chunks 3.. of salt-multi + 1 byte", [&cat(&[&m[3..]])[..], &[1u8][..]].concat(), mixed.clone()),
+            xf("salt-empty", "empty", vec![], one.clone()),
+        ];
+        let salts = [[0x11u8; 32], { let mut s = [0x11u8; 32]; s[31] = 0x12; s }, zero, { let mut s = [0u8; 32]; s[0] = 1; s }];
+        for (i, salt) in salts.iter().enumerate() {
+            if let Some(w) = x.step(&format!("E7 (ONE store; session {} of 4, repo salt {:02x}{:02x}..{:02x})", i + 1, salt[0], salt[1], salt[31]), store.path(), *salt, &files, false, &mut earlier).await {
+                return Some(w);
+            }
+        }
+        // different salts -> different hashes (the empty file has the all-zero hash under every salt on HEAD: known, not re-reported)
+        for f in files.iter().filter(|f| !f.data.is_empty()) {
+            let hs: Vec<&String> = earlier.iter().filter(|(g, _, _)| g.name == f.name).map(|(_, p, _)| p.hash_string()).collect();
+            for i in 0..hs.len() {
+                for j in 0..i {
+                    if hs[i] == hs[j] {
+                        return Some(format!("config {}; extras, E7: {} gets the same pointer hash {} under the repo salts of sessions {} and {}", x.cfg_name, f.label(), hs[i], j + 1, i + 1));
+                    }
+                }
+            }
+        }
+        // a FileDownloader configured with another salt still finds every file by hash (the salt is part of the hash, not of the lookup)
+        let dl = match FileDownloader::new(make_cfg(store.path(), [0x77; 32], never), x.tp.clone()).await { Ok(d) => d, Err(e) => return Some(format!("config {}; extras, E7: FileDownloader::new fails: {e}", x.cfg_name)) };
+        for (f, p, _) in earlier.iter() {
+            if let Err(e) = xdownload(&dl, f, p, x.scratch.path(), false).await {
+                return Some(format!("config {}; extras, E7 (all four sessions done): {e}", x.cfg_name));
+            }
+        }
+    }
+    // ---- E8: two sessions alive at the same time on one store (one process: they share the cached shard-cache manager)
+    {
+        let store = tempfile::tempdir().unwrap();
+        let ctx = format!("config {}; extras, E8 (fresh store; sessions a and b open at the same time: a cleans F1 while b cleans F2 = 2 fresh chunks + chunks 3.. of F1; a finalizes; b cleans F1 and F3 = F1 without its first chunk; b finalizes)", x.cfg_name);
+        let c1: Vec<Arc<Vec<u8>>> = [pool.fresh_xorb(&l), pool.fresh(&l, 6)].concat();
+        let f1 = xf("F1", format!("{} fresh chunks", c1.len()), cat(&[&c1]), smalls.clone());
+        let f2 = xf("F2", "2 fresh chunks + chunks 3.. of F1", cat(&[&pool.fresh(&l, 2), &c1[3..]]), smalls.clone());
+        let f3 = xf("F3", "F1 without its first chunk", cat(&[&c1[1..]]), one.clone());
+        let mk = || FileUploadSession::new(make_cfg(store.path(), zero, never), x.tp.clone(), None);
+        let a = match mk().await { Ok(s) => s, Err(e) => return Some(format!("{ctx}: FileUploadSession::new (a) fails: {e}")) };
+        let b = match mk().await { Ok(s) => s, Err(e) => return Some(format!("{ctx}: FileUploadSession::new (b) fails while session a is open: {e}")) };
+        let (mut ca, mut cb) = (a.start_clean("F1".into()), b.start_clean("F2".into()));
+        let (pa, pb) = (pieces(f1.data.len(), &Part::Cycle(vec![small * 3])), pieces(f2.data.len(), &Part::Cycle(vec![small * 3 + 1])));
+        let (mut oa, mut ob) = (0, 0);
+        for k in 0..pa.len().max(pb.len()) {
+            if k < pa.len() {
+                if let Err(e) = ca.add_data(&f1.data[oa..oa + pa[k]]).await { return Some(format!("{ctx}: add_data on F1 fails at offset {oa}: {e}")); }
+                oa += pa[k];
+            }
+            if k < pb.len() {
+                if let Err(e) = cb.add_data(&f2.data[ob..ob + pb[k]]).await { return Some(format!("{ctx}: add_data on F2 fails at offset {ob}: {e}")); }
+                ob += pb[k];
+            }
+        }
+        let p1 = match ca.finish().await { Ok((p, _)) => p, Err(e) => return Some(format!("{ctx}: finish of F1 fails: {e}")) };
+        let p2 = match cb.finish().await { Ok((p, _)) => p, Err(e) => return Some(format!("{ctx}: finish of F2 fails: {e}")) };
+        let ia = match a.finalize_with_file_info().await { Ok((m, i)) => { note_metrics(&m); i }, Err(e) => return Some(format!("{ctx}: finalize of a fails: {e}")) };
+        let p1b = match feed_one(&b, &f1, x.files_dir.path(), false).await { Ok(p) => p, Err(e) => return Some(format!("{ctx}: in b after a's finalize: {e}")) };
+        let p3 = match feed_one(&b, &f3, x.files_dir.path(), false).await { Ok(p) => p, Err(e) => return Some(format!("{ctx}: in b after a's finalize: {e}")) };
+        let ib = match b.finalize_with_file_info().await { Ok((m, i)) => { note_metrics(&m); i }, Err(e) => return Some(format!("{ctx}: finalize of b fails: {e}")) };
+        if let Some(w) = check_done(&l, &mut x.refs, &zero, std::slice::from_ref(&f1), &Done { pointers: vec![p1.clone()], infos: ia }) {
+            return Some(format!("{ctx}: session a: {w}"));
+        }
+        let fb = [f2, f1.clone(), f3];
+        let db = Done { pointers: vec![p2, p1b, p3], infos: ib };
+        if let Some(w) = check_done(&l, &mut x.refs, &zero, &fb, &db) {
+            return Some(format!("{ctx}: session b: {w}"));
+        }
+        let dl = match FileDownloader::new(make_cfg(store.path(), zero, never), x.tp.clone()).await { Ok(d) => d, Err(e) => return Some(format!("{ctx}: FileDownloader::new fails: {e}")) };
+        for (f, p) in fb.iter().zip(&db.pointers).chain(std::iter::once((&f1, &p1))) {
+            if let Err(e) = xdownload(&dl, f, p, x.scratch.path(), false).await {
+                return Some(format!("{ctx}: {e}"));
+            }
+        }
+    }
+    // ---- E9: more than 128 fragmented dedup ranges in one file (the fragmentation estimator works on the last 128 ranges by default)
+    if l.target <= 4096 {
+        let store = tempfile::tempdir().unwrap();
+        let mut earlier = vec![];
+        let known = pool.fresh(&l, 150);
+        let fresh = pool.fresh(&l, 150);
+        let f_known = xf("frag-known", "150 fresh chunks K", cat(&[&known]), one.clone());
+        if let Some(w) = x.step("E9 session 1", store.path(), zero, std::slice::from_ref(&f_known), false, &mut earlier).await {
+            return Some(w);
+        }
+        let mut alt: Vec<Arc<Vec<u8>>> = vec![];
+        for i in 0..150 {
+            alt.push(known[i].clone());
+            alt.push(fresh[i].clone());
+        }
+        alt.extend_from_slice(&known[10..40]);
+        alt.extend_from_slice(&fresh[5..8]);
+        let mut hop: Vec<Arc<Vec<u8>>> = vec![];
+        for i in 0..70 {
+            hop.push(known[i].clone());
+            hop.push(known[75 + i].clone());
+        }
+        hop.extend_from_slice(&known[100..130]);
+        for i in 0..40 {
+            hop.push(known[149 - i].clone());
+        }
+        // dedup ranges of TWO chunks between new ranges of four: about 3 chunks per range, so pairs are withheld too
+        let fresh2 = pool.fresh(&l, 280);
+        let mut pairs: Vec<Arc<Vec<u8>>> = vec![];
+        for i in 0..70 {
+            pairs.extend_from_slice(&known[2 * i..2 * i + 2]);
+            pairs.extend_from_slice(&fresh2[4 * i..4 * i + 4]);
+        }
+        pairs.extend_from_slice(&known[140..150]);
+        let files = vec![
+            xf("frag-pairs", "K[0..2], 4 new, K[2..4], 4 new, ... (70 times), then K[140..150]", cat(&[&pairs]), one.clone()),
+            xf("frag-alternating", "K[0], new, K[1], new, ... K[149], new (300 ranges of one chunk), then K[10..40], then 3 of the new chunks again", cat(&[&alt]), smalls.clone()),
+            xf("frag-hopping", "K[0], K[75], K[1], K[76], ... (140 one-chunk ranges, all known), K[100..130], then K[149], K[148], ... K[110]", cat(&[&hop]), mixed.clone()),
+            xf("frag-known-again", "identical to frag-known", cat(&[&known]), smalls.clone()),
+        ];
+        if let Some(w) = x.step("E9 session 2 (store holds 'frag-known' = 150 chunks K)", store.path(), zero, &files, false, &mut earlier).await {
+            return Some(w);
+        }
+    }
+    None
+}
+
+/// Histories across processes.  Phase 1 uploads and leaves pointer FILES; phase 2 cleans files in a session and the process exits
+/// without finalize (nothing is dropped: the session directory stays behind); phase 3, a fresh process, reads the pointer files
+/// (`PointerFile::init_from_path`), downloads, uploads content related to phases 1 and 2, downloads everything.
+async fn phased(tp: Arc<ThreadPool>, l: Arc<Limits>, cfg_name: String, seed: u64, salt: [u8; 32], never: bool, phase: u8, dir: std::path::PathBuf) -> Option<String> {
+    let mut pool = Pool { rng: StdRng::seed_from_u64(seed ^ 0x9A5E), chunks: vec![], next: 0 };
+    let mut rng = StdRng::seed_from_u64(seed ^ 0x9A5F);
+    let small = 300;
+    let one = Feed::Parts(Part::One);
+    let smalls = Feed::Parts(Part::Cycle(vec![small, 1, small + 333]));
+    let mixed = Feed::Parts(Part::Cycle(vec![2 * l.ingestion + 123, 5, 70_000, l.ingestion, 11]));
+    // the same inputs in every phase
+    let base_chunks: Vec<Arc<Vec<u8>>> = [pool.fresh_xorb(&l), pool.fresh(&l, 8)].concat();
+    let second: Vec<Arc<Vec<u8>>> = [pool.fresh_xorb(&l), pool.fresh(&l, 5)].concat();
+    let crash_chunks: Vec<Arc<Vec<u8>>> = [pool.fresh_xorb(&l), pool.fresh_xorb(&l), pool.fresh(&l, 4)].concat();
+    let later = pool.fresh(&l, 6);
+    let mut sub = vec![0u8; l.target / l.div / 2];
+    rng.fill(&mut sub[..]);
+    let nb = base_chunks.len();
+    let base = cat(&[&base_chunks]);
+    let files1 = vec![
+        xf("base", format!("{nb} fresh chunks (one full xorb + 8)"), base.clone(), smalls.clone()),
+        xf("one-byte", "a single byte", vec![0x42], one.clone()),
+        xf("sub-chunk", "less than a minimum chunk", sub, one.clone()),
+        xf("second", format!("{} fresh chunks", second.len()), cat(&[&second]), Feed::RealFile),
+        xf("empty", "empty", vec![], Feed::NoAddData),
+    ];
+    let files2 = vec![
+        xf("crash-fresh", format!("{} fresh chunks (two full xorbs + 4)", crash_chunks.len()), cat(&[&crash_chunks]), smalls.clone()),
+        xf("crash-slice", "chunks 2..9 of 'base' (process 1) + 3 chunks of 'crash-fresh'", cat(&[&base_chunks[2..9.min(nb)], &crash_chunks[1..4]]), one.clone()),
+    ];
+    let mid = base_chunks[..nb / 2].iter().map(|c| c.len()).sum::<usize>() + base_chunks[nb / 2].len() / 2;
+    let files3 = vec![
+        xf("crash-fresh", format!("{} fresh chunks; also cleaned (and finished) by the process that died without finalize", crash_chunks.len()), cat(&[&crash_chunks]), one.clone()),
+        xf("base-again", "identical to 'base' of process 1", base.clone(), one.clone()),
+        xf("base-prefix-unaligned", format!("the first {mid} bytes of 'base' of process 1"), base[..mid].to_vec(), smalls.clone()),
+        xf("base-suffix", format!("'base' of process 1 from its chunk {} on, then 6 fresh chunks", nb / 3), cat(&[&base_chunks[nb / 3..], &later]), mixed.clone()),
+        xf("mix", "chunks 1..5 of 'second' (process 1), chunks 3..9 of 'crash-fresh', 2 chunks of 'base'", cat(&[&second[1..5], &crash_chunks[3..9], &base_chunks[..2]]), smalls.clone()),
+    ];
+    let store = dir.join("store");
+    let ptr_dir = dir.join("pointers");
+    std::fs::create_dir_all(&ptr_dir).unwrap();
+    let mut x = Xs { tp, l: l.clone(), cfg_name: cfg_name.clone(), never, refs: Refs::default(), files_dir: tempfile::tempdir().unwrap(), scratch: tempfile::tempdir().unwrap() };
+    match phase {
+        1 => {
+            let mut earlier = vec![];
+            if let Some(w) = x.step("process 1 (fresh store)", &store, salt, &files1, false, &mut earlier).await {
+                return Some(w);
+            }
+            for (f, p, _) in &earlier {
+                std::fs::write(ptr_dir.join(&f.name), p.to_string()).unwrap();
+            }
+            None
+        },
+        2 => {
+            let ctx = format!("config {cfg_name}; process 2 (a session that is never finalized)");
+            let session = match FileUploadSession::new(make_cfg(&store, salt, never), x.tp.clone(), None).await { Ok(s) => s, Err(e) => return Some(format!("{ctx}: FileUploadSession::new fails: {e}")) };
+            for f in &files2 {
+                if let Err(e) = feed_one(&session, f, x.files_dir.path(), false).await {
+                    return Some(format!("{ctx}: {e}"));
+                }
+            }
+            let mut half = session.start_clean("half".into());
+            if let Err(e) = half.add_data(&base[..base.len() - 10]).await {
+                return Some(format!("{ctx}: add_data fails: {e}"));
+            }
+            tokio::time::sleep(std::time::Duration::from_millis(100)).await;
+            // die: no destructor runs, the session directory and whatever was uploaded stay behind
+            std::process::exit(0);
+        },
+        _ => {
+            let ctx = format!("config {cfg_name}; last process (fresh process over the store and shard cache left by the earlier ones)");
+            let mut earlier = vec![];
+            for f in &files1 {
+                let p = PointerFile::init_from_path(ptr_dir.join(&f.name));
+                let want = x.refs.file_hash(&l, f, &salt);
+                if !p.is_valid() || *p.hash_string() != want.hex() || p.filesize() != f.data.len() as u64 {
+                    return Some(format!("{ctx}: the pointer file written by process 1 for {} ({:?}) is read back by init_from_path as valid={} hash={} size={}; expected hash {}", f.label(), std::fs::read_to_string(ptr_dir.join(&f.name)).unwrap_or_default(), p.is_valid(), p.hash_string(), p.filesize(), want.hex()));
+                }
+                earlier.push((f.clone(), p, salt));
+            }
+            let dl = match FileDownloader::new(make_cfg(&store, salt, never), x.tp.clone()).await { Ok(d) => d, Err(e) => return Some(format!("{ctx}: FileDownloader::new fails: {e}")) };
+            for (f, p, _) in &earlier {
+                if let Err(e) = xdownload(&dl, f, p, x.scratch.path(), true).await {
+                    return Some(format!("{ctx}: before any upload of this process: {e}"));
+                }
+            }
+            drop(dl);
+            x.step("last process (fresh process over the store and shard cache left by the earlier ones), its session", &store, salt, &files3, false, &mut earlier).await
+        },
+    }
+}
+
+fn child(idx: usize, phase: u8, dir: Option<std::path::PathBuf>) -> i32 {
+    let c = &CONFIGS[idx];
+    let cfg_name = c.name;
+    let t0 = std::time::Instant::now();
     let l = Limits {
         target: *deduplication::constants::TARGET_CHUNK_SIZE,
         div: *deduplication::constants::MINIMUM_CHUNK_DIVISOR,
@@ -472,21 +1425,63 @@ fn child(idx: usize) -> i32 {
         xorb_chunks: *deduplication::constants::MAX_XORB_CHUNKS,
         ingestion: std::env::var("HF_XET_INGESTION_BLOCK_SIZE").ok().and_then(|s| s.parse().ok()).unwrap_or(8 << 20),
     };
-    for (k, v) in env {
-        let got = match *k { "HF_XET_MAX_XORB_BYTES" => l.xorb_bytes, "HF_XET_MAX_XORB_CHUNKS" => l.xorb_chunks, "HF_XET_TARGET_CHUNK_SIZE" => l.target, _ => continue };
+    for (k, v) in c.env {
+        let got = match *k {
+            "HF_XET_MAX_XORB_BYTES" => l.xorb_bytes,
+            "HF_XET_MAX_XORB_CHUNKS" => l.xorb_chunks,
+            "HF_XET_TARGET_CHUNK_SIZE" => l.target,
+            "HF_XET_MINIMUM_CHUNK_DIVISOR" => l.div,
+            "HF_XET_MAXIMUM_CHUNK_MULTIPLIER" => l.mult,
+            "HF_XET_MDB_SHARD_MIN_TARGET_SIZE" => *mdb_shard::constants::MDB_SHARD_MIN_TARGET_SIZE as usize,
+            _ => continue,
+        };
         if got.to_string() != *v {
             println!("infrastructure: {k}={v} was not picked up by this build (value {got})");
             return 2;
         }
     }
+    if !sha256_selftest() {
+        println!("infrastructure: the harness's own SHA-256 fails its test vectors");
+        return 2;
+    }
     let seed = std::env::var("VERIF_SEED").ok().and_then(|s| s.parse().ok()).unwrap_or(0u64);
-    let (specs, sessions) = build(&l, seed);
+    let salt = [c.salt; 32];
+    let (full, never) = (c.full, c.never);
+    let l = Arc::new(l);
     let tp = Arc::new(ThreadPool::new().expect("runtime"));
     let tp2 = tp.clone();
-    let r = tp.external_run_async_task(run_all(tp2, Arc::new(l), Arc::new(specs), Arc::new(sessions), cfg_name.to_string()));
+    let r = tp.external_run_async_task(async move {
+        if let Some(dir) = dir {
+            let w = phased(tp2, l, cfg_name.to_string(), seed, salt, never, phase, dir).await;
+            return (w, t0.elapsed());
+        }
+        // the extras run beside the three-store scenario, in their own stores
+        let no_extras = std::env::var("VERIF_C01_NO_EXTRAS").is_ok();
+        let (tp3, l3) = (tp2.clone(), l.clone());
+        let ex = tokio::spawn(async move { if no_extras { None } else { extras(tp3, l3, cfg_name.to_string(), seed, never).await } });
+        let main = if full {
+            let (specs, sessions) = build(&l, seed);
+            run_all(tp2, l.clone(), Arc::new(specs), Arc::new(sessions), cfg_name.to_string(), salt, never).await
+        } else {
+            None
+        };
+        let t_main = t0.elapsed();
+        let ex = match ex.await {
+            Ok(w) => w,
+            Err(e) => Some(format!("the upload / download pipeline panicked or was aborted: {e}; last step started: {}", CURRENT_STEP.lock().unwrap_or_else(|e| e.into_inner()))),
+        };
+        (main.or(ex), t_main)
+    });
+    if std::env::var("VERIF_C01_TIMING").is_ok() {
+        use std::sync::atomic::Ordering::Relaxed;
+        eprintln!(
+            "timing {}: three-store scenario {:.1?}, all {:.1?}; {} sessions finalized, {} chunks deduplicated, {} new, {} withheld by the fragmentation check, {} extras downloads, at most {} shard files in an extras store",
+            &cfg_name[..1], r.as_ref().map(|r| r.1).unwrap_or_default(), t0.elapsed(), STAT_SESSIONS.load(Relaxed), STAT_DEDUP_CHUNKS.load(Relaxed), STAT_NEW_CHUNKS.load(Relaxed), STAT_DEFRAG_CHUNKS.load(Relaxed), STAT_DOWNLOADS.load(Relaxed), STAT_MAX_SHARDS.load(Relaxed)
+        );
+    }
     match r {
-        Ok(None) => { println!("no violation found"); 0 },
-        Ok(Some(w)) => { println!("WITNESS {w}"); 1 },
+        Ok((None, _)) => { println!("no violation found"); 0 },
+        Ok((Some(w), _)) => { println!("WITNESS {w}"); 1 },
         Err(e) => { println!("WITNESS config {cfg_name}: the upload / download pipeline panicked or was aborted: {e}"); 1 },
     }
 }
@@ -494,28 +1489,79 @@ fn child(idx: usize) -> i32 {
 fn main() {
     let args: Vec<String> = std::env::args().collect();
     if args.len() == 3 && args[1] == "--child" {
-        std::process::exit(child(args[2].parse().unwrap()));
+        std::process::exit(child(args[2].parse().unwrap(), 0, None));
+    }
+    if args.len() == 5 && args[1] == "--child" {
+        std::process::exit(child(args[2].parse().unwrap(), args[3].parse().unwrap(), Some(args[4].clone().into())));
     }
     let exe = std::env::current_exe().unwrap();
-    let handles: Vec<_> = (0..CONFIGS.len())
-        .map(|i| {
-            let mut cmd = Command::new(&exe);
-            cmd.arg("--child").arg(i.to_string()).stdout(Stdio::piped()).stderr(Stdio::piped());
-            for v in ["HF_XET_MAX_XORB_BYTES", "HF_XET_MAX_XORB_CHUNKS", "HF_XET_TARGET_CHUNK_SIZE", "HF_XET_INGESTION_BLOCK_SIZE"] {
-                cmd.env_remove(v);
+    let timing = std::env::var("VERIF_C01_TIMING").is_ok();
+    // VERIF_C01_ONLY=A,E,... restricts the children (debugging aid)
+    let only: Option<Vec<String>> = std::env::var("VERIF_C01_ONLY").ok().map(|s| s.split(',').map(|x| x.trim().to_string()).collect());
+    let chosen: Vec<usize> = (0..CONFIGS.len())
+        .filter(|&i| match &only {
+            Some(o) => o.iter().any(|x| CONFIGS[i].name.starts_with(x.as_str())),
+            None => CONFIGS[i].opt_in.map(|v| std::env::var(v).is_ok()).unwrap_or(true),
+        })
+        .collect();
+    let handles: Vec<_> = chosen
+        .iter()
+        .map(|&i| {
+            let spawn = move |exe: &std::path::Path, phase: Option<(u8, &Path)>| {
+                let mut cmd = Command::new(exe);
+                cmd.arg("--child").arg(i.to_string()).stdout(Stdio::piped()).stderr(Stdio::piped());
+                if let Some((ph, dir)) = phase {
+                    cmd.arg(ph.to_string()).arg(dir);
+                }
+                for v in ENV_NAMES {
+                    cmd.env_remove(v);
+                }
+                for (k, v) in CONFIGS[i].env {
+                    cmd.env(k, v);
+                }
+                cmd.spawn().expect("spawn child")
+            };
+            if CONFIGS[i].phases.is_empty() {
+                let c = spawn(&exe, None);
+                std::thread::spawn(move || c.wait_with_output())
+            } else {
+                // the processes of a phased configuration run one after the other over one directory; the first that does not
+                // exit with 0 (or the last) gives the result
+                let exe = exe.clone();
+                std::thread::spawn(move || {
+                    let dir = tempfile::tempdir().expect("tempdir");
+                    let mut last = None;
+                    let mut err = vec![];
+                    for &ph in CONFIGS[i].phases {
+                        if ph != 1 && CONFIGS[i].env.iter().any(|(k, _)| *k == "HF_XET_MDB_SHARD_LOCAL_CACHE_EXPIRATION_SECS") {
+                            // expiry times have a resolution of one second
+                            std::thread::sleep(std::time::Duration::from_millis(2100));
+                        }
+                        let mut out = spawn(&exe, Some((ph, dir.path()))).wait_with_output()?;
+                        err.extend_from_slice(&out.stderr);
+                        out.stderr = err.clone();
+                        let ok = out.status.code() == Some(0);
+                        last = Some(out);
+                        if !ok {
+                            break;
+                        }
+                    }
+                    Ok(last.unwrap())
+                })
             }
-            for (k, v) in CONFIGS[i].1 {
-                cmd.env(k, v);
-            }
-            let c = cmd.spawn().expect("spawn child");
-            std::thread::spawn(move || c.wait_with_output())
         })
         .collect();
     let mut verdict = 0;
     let mut lines = vec![];
-    for (i, h) in handles.into_iter().enumerate() {
+    for (i, h) in chosen.iter().copied().zip(handles) {
         let out = h.join().unwrap().expect("child output");
         let stdout = String::from_utf8_lossy(&out.stdout).to_string();
+        if timing {
+            // (run.sh swallows stderr, so this debugging aid goes to stdout)
+            for l in String::from_utf8_lossy(&out.stderr).lines().filter(|l| l.starts_with("timing")) {
+                println!("{l}");
+            }
+        }
         match out.status.code() {
             Some(0) => {},
             Some(1) => { verdict = verdict.max(1); lines.extend(stdout.lines().filter(|l| l.starts_with("WITNESS")).map(|s| s.to_string())); },
@@ -524,7 +1570,7 @@ fn main() {
                 let err = String::from_utf8_lossy(&out.stderr);
                 let tail: Vec<&str> = err.lines().rev().take(6).collect();
                 verdict = verdict.max(1);
-                lines.push(format!("WITNESS config {}: the process running the upload / download scenario died ({:?}); last output: {}", CONFIGS[i].0, out.status, tail.into_iter().rev().collect::<Vec<_>>().join(" | ")));
+                lines.push(format!("WITNESS config {}: the process running the upload / download scenario died ({:?}); last output: {}", CONFIGS[i].name, out.status, tail.into_iter().rev().collect::<Vec<_>>().join(" | ")));
             },
         }
     }
